@@ -183,4 +183,119 @@ theorem file_of_frames (pre blk post : List Pipeline.OutPkt) (f : Bytes)
     have hp : pb.1 ∈ pre ++ blk ++ post := (List.of_mem_zip hmem).1
     exact Export.goodFrame_of _ _ (hwf _ hp) hser
 
+/-! ### the layers glued -/
+section
+open TLX.Export
+
+/-- the option vector `run()` works with once `-p` / `-m` are parsed -/
+def optsOf (args : Args) (ports : List Int) (pm : List (Int × Int)) : Opts :=
+  ⟨ports, args.checksumTest, args.greasy, args.metadata, Options.keepOriginalPorts args.mArg, pm⟩
+
+theorem framesFrom_eq (mask : Quic.Dissect.MaskFn) (H : Crypto.Prims) (P : Cipher.Prims) (args : Args)
+    (fk : Option (List Keylog.Key)) (xs : List (MainLoop.Item Keylog.Key)) (info : Nat → Pipeline.Info)
+    (pm : List (Int × Int)) (ports : List Int)
+    (hpm : Options.getPortMap Options.Src.bare args.mArg = .ok pm)
+    (hports : Options.serverPorts Options.Src.builtin Options.Src.pDefault args.pArg = .ok ports) :
+    framesFrom mask H P freshState args fk xs info =
+      .ok (exportAll (Pipeline.tlsMachine H P info) (QuicPipeline.quicMachine mask H P info) (optsOf args ports pm)
+        (runItems (Pipeline.tlsMachine H P info) (QuicPipeline.quicMachine mask H P info) (optsOf args ports pm)
+          ⟨fk.getD [], [], []⟩ xs)) := by
+  unfold framesFrom runFrom MainLoop.body
+  have hr : (reset (freshState : Prior)).serverPorts = Options.Src.builtin := rfl
+  simp only [hpm, hr, hports]
+  rfl
+
+theorem optionsBad_false (args : Args) (pm : List (Int × Int)) (ports : List Int)
+    (hpm : Options.getPortMap Options.Src.bare args.mArg = .ok pm)
+    (hports : Options.serverPorts Options.Src.builtin Options.Src.pDefault args.pArg = .ok ports) :
+    optionsBad (freshState : Prior) args = false := by
+  unfold optionsBad
+  have hr : (reset (freshState : Prior)).serverPorts = Options.Src.builtin := rfl
+  simp only [hpm, hr, hports]
+
+theorem classify_frame_not_keys (o : Opts) (p : Pkt) (ks : List Keylog.Key) :
+    (classify o (.frame p) : Class Keylog.Key) ≠ .keys ks := by
+  intro h
+  simp only [classify] at h
+  repeat' split at h
+  all_goals cases h
+
+theorem dsbKeys_frame (o : Opts) (p : Pkt) : dsbKeys o [(.frame p : MainLoop.Item Keylog.Key)] = [] := by
+  simp only [dsbKeys, List.flatMap_cons, List.flatMap_nil, List.append_nil]
+  split
+  · rename_i ks hk; exact absurd hk (classify_frame_not_keys o p ks)
+  · rfl
+
+theorem dsbKeys_cons (o : Opts) (x : MainLoop.Item Keylog.Key) (l : List (MainLoop.Item Keylog.Key)) :
+    dsbKeys o (x :: l) = dsbKeys o [x] ++ dsbKeys o l := by
+  simp [dsbKeys]
+
+theorem dsbKeys_itemsFrom (o : Opts) (cap : List CapEv) (tag : Nat) : dsbKeys o (itemsFrom tag cap) = [] := by
+  induction cap generalizing tag with
+  | nil => rfl
+  | cons e rest ih => rw [itemsFrom, dsbKeys_cons, dsbKeys_frame, ih]; rfl
+
+/-- what the theorem says about the output file `f` for the block `blk` of one session: the tool's own reader reads `f` as
+    (other sessions' packets) ++ (one packet per frame of `blk`, in order, at the frame's microsecond) ++ (other sessions'
+    packets), and each packet of the block is the serialisation of its frame and a `GoodFrame`: the independent parser
+    reads exactly the frame's MACs, addresses, ports and payload out of it, lengths and checksums right -/
+def ReadsBack (f : Bytes) (blk : List Pipeline.OutPkt) : Prop :=
+  ∃ (A C : List Item) (B : List Bytes), B.length = blk.length ∧
+    Container.read false f = .ok (A ++ (blk.zip B).map (fun pb => Item.pkt ⟨pb.1.ts, 10 ^ 6, 0, false⟩ pb.2) ++ C) ∧
+    ∀ pb ∈ blk.zip B, Props.Export.GoodFrame (Frame.ofOutPkt pb.1) pb.2
+
+/-- **The three layers glued around one session.** Capture file (any container the reader model reads as the packets `cap`,
+    every frame dissected without exception), key-log file, options without `-c`; `q` any packet of the flow of interest,
+    whose TLS-relevant packets in the capture are `p0 :: rest`, `p0` with a server port at one end. If `connOut` of THE
+    session object the loop builds for that flow is `some blk`, then the run gets past option parsing and the read loop, and
+    either dies in the write loop (some frame of some session does not fit scapy's fields: `export_abort_write_iff`) or
+    writes a file that `ReadsBack` exactly `blk`. -/
+theorem export_of_session (mask : Quic.Dissect.MaskFn) (H : Crypto.Prims) (P : Cipher.Prims) (args : Args)
+    (legacy : Bool) (keyFile : Option Keylog.Str) (file : Bytes) (cap : List CapEv)
+    (hread : Container.read legacy file = .ok (cap.map CapEv.item)) (hok : CapOk cap)
+    (hnoc : args.checksumTest = false)
+    (pm : List (Int × Int)) (ports : List Int)
+    (hpm : Options.getPortMap Options.Src.bare args.mArg = .ok pm)
+    (hports : Options.serverPorts Options.Src.builtin Options.Src.pDefault args.pArg = .ok ports)
+    (q p0 : Pkt) (rest : List Pkt)
+    (hF : (tcpView (optsOf args ports pm) (itemsFrom 0 cap)).filter (sameFlow q) = p0 :: rest)
+    (hcand : candidate (optsOf args ports pm) p0 = true)
+    (blk : List Pipeline.OutPkt)
+    (hsess : Pipeline.connOut H P (Ingest.lookup (infosFrom 0 cap))
+      { (Pipeline.tlsMachine H P (Ingest.lookup (infosFrom 0 cap))).new (optsOf args ports pm) p0 with pkts := p0 :: rest }
+      ((fileKeysOf keyFile).getD []) = some blk) :
+    (∃ e, exportFile mask H P args legacy keyFile file = .abort (.write e)) ∨
+    ∃ f, exportFile mask H P args legacy keyFile file = .file f ∧ ReadsBack f blk := by
+  have hopt := optionsBad_false args pm ports hpm hports
+  have hing := ingest_of_capture Keylog.srcHexClass legacy file cap hread hok
+  rw [← hnoc] at hing
+  obtain ⟨pre, post, hout⟩ := session_of_items mask H P (Ingest.lookup (infosFrom 0 cap)) (optsOf args ports pm)
+    ((fileKeysOf keyFile).getD []) (itemsFrom 0 cap) q p0 rest hF hcand
+  simp only [dsbKeys_itemsFrom, List.append_nil] at hout
+  have hTM : (Pipeline.tlsMachine H P (Ingest.lookup (infosFrom 0 cap))).out
+      { (Pipeline.tlsMachine H P (Ingest.lookup (infosFrom 0 cap))).new (optsOf args ports pm) p0 with pkts := p0 :: rest }
+      ((fileKeysOf keyFile).getD []) = blk := by
+    show (Pipeline.connOut H P _ _ _).getD [] = blk
+    rw [hsess]; rfl
+  rw [hTM] at hout
+  have hfr := framesFrom_eq mask H P args (fileKeysOf keyFile) (itemsFrom 0 cap) (Ingest.lookup (infosFrom 0 cap))
+    pm ports hpm hports
+  rw [hout] at hfr
+  rcases Props.Export.exportFrom_stages mask H P freshState args legacy keyFile file hopt with
+    ⟨e, hi, _⟩ | ⟨xs, is, out, hi, hf, hw⟩
+  · rw [hing] at hi; cases hi
+  rw [hing] at hi
+  cases hi
+  rw [hfr] at hf
+  cases hf
+  rcases hw with ⟨e, _, he⟩ | ⟨f, hw, he⟩
+  · exact .inl ⟨e, he⟩
+  · refine .inr ⟨f, he, ?_⟩
+    have hwf := Lemmas.Export.framesFrom_wf mask H P freshState args _ _ _ _
+      (Lemmas.Export.itemsWith_good _ _ _ _ _ _ hing) hfr
+    obtain ⟨A, C, B, _, _, hB, hr, hg⟩ := file_of_frames pre blk post f hwf hw
+    exact ⟨A, C, B, hB, hr, hg⟩
+
+end
+
 end TLX.Props.C01File
